@@ -116,9 +116,9 @@ def forbidden_scan():
     return hits
 
 
-def theorems_of(pid):
-    """fully qualified names of the theorems declared in OH/Props/<pid>.lean"""
-    path = os.path.join(LEAN, "OH", "Props", f"{pid}.lean")
+def theorems_of(mod):
+    """fully qualified names of the theorems declared in OH/Props/<mod>.lean"""
+    path = os.path.join(LEAN, "OH", "Props", f"{mod}.lean")
     src = strip_comments(open(path, encoding="utf-8").read())
     ns = []
     names = []
@@ -160,10 +160,14 @@ def proof_side(pid, thorough):
     hits = forbidden_scan()
     for h in hits:
         out["broken"].append(("forbidden-construct", h))
-    names = theorems_of(pid)
+    mods_short = PROPS[pid].get("props_modules", [pid])
+    names = []
+    for ms in mods_short:
+        names += theorems_of(ms)
     out["obligations"] = names
-    mod = f"OH.Props.{pid}"
-    cmd = ["lake", "build", mod, "ohdriver"]
+    mods = [f"OH.Props.{ms}" for ms in mods_short]
+    mod = " ".join(mods)
+    cmd = ["lake", "build"] + mods + ["ohdriver"]
     out["checker_cmd"] = f"cd /verif/lean && lake build {mod} ohdriver && lake env lean .audit/{pid}.lean  (# print axioms ⊆ {{propext, Classical.choice, Quot.sound}})"
     p = run(cmd, cwd=LEAN, timeout=3600)
     out["log"] = p.stdout[-6000:]
@@ -181,7 +185,8 @@ def proof_side(pid, thorough):
     os.makedirs(adir, exist_ok=True)
     afile = os.path.join(adir, f"{pid}.lean")
     with open(afile, "w", encoding="utf-8") as f:
-        f.write(f"import {mod}\n")
+        for m_ in mods:
+            f.write(f"import {m_}\n")
         for n in names:
             f.write(f"#print axioms {n}\n")
     p = run(["lake", "env", "lean", afile], cwd=LEAN, timeout=1800)
@@ -200,7 +205,7 @@ def proof_side(pid, thorough):
         else:
             out["discharged"].append(n)
     if thorough:
-        p = run(["lake", "env", "leanchecker", mod], cwd=LEAN, timeout=3600)
+        p = run(["lake", "env", "leanchecker"] + mods, cwd=LEAN, timeout=3600)
         out["leanchecker"] = p.returncode
         if p.returncode != 0:
             out["broken"].append(("leanchecker", p.stdout[-400:]))
